@@ -228,11 +228,20 @@ def alias_programs(seed, n):
         if r.random() < 0.3:
             names['g'] = inner
         vars_ = ['x', 'y', 'c', 'd']
-        roots = ['h', 'x', 'y', 'c[0]', 'd["k"]', 'x[0]', 'h[0]', 'y[1]', 'h["a"]', 'x[0][1]', 'c', 'd', 'h2', 'g']
+        names['tp'] = ('k', inner)
+        if r.random() < 0.15:
+            # host data that holds something copy.deepcopy refuses: a store of it fails (TypeError), nothing is shared
+            # (scenarios travel to worker processes pickled: the object is made there, see vmrun._materialize)
+            h = {'a': inner, 'history': [1, 2], 'lock': {'__verif_make__': 'lock'}} if r.random() < 0.5 else [inner, [1, 2], {'__verif_make__': 'gen'}]
+            names['h'] = h
+        roots = ['h', 'x', 'y', 'c[0]', 'd["k"]', 'x[0]', 'h[0]', 'y[1]', 'h["a"]', 'x[0][1]', 'c', 'd', 'h2', 'g', 'tp[1]', 'c[0][1]', 'd["k"][1]']
         lines = [r.choice(['x = h', 'x = h[0]', 'x = [h, h]', 'c = [0, 0]\nc[0] = h', 'd = {}\nd["k"] = h', 'x = []\nx += h',
                            'c = [[]]\nc[0] += h', 'x = enumerate(h)', 'x = items(h)', 'x = h\ny = x', 'x = h + h', 'x = []\npush(x, h)',
                            'x = values(h)', 'x = reversed(h)', 'x = sorted(h)', 'y = [g, g]\nx = y', 'x = h[0:1]', 'x = {"k": h}', 'x = h if True else 0',
-                           'x = [h] | map(v => v)', 'x = h or 1'])]
+                           'x = [h] | map(v => v)', 'x = h or 1',
+                           # a tuple (from items / enumerate / the host) stored by an item write without passing through a variable
+                           'c = [0, 0]\nc[0] = items({"k": h})[0]\nx = c', 'd = {}\nd["k"] = enumerate([h])[0]\nx = d', 'c = [0]\nc[0] = enumerate(h)[0]\nx = c',
+                           'c = [[]]\nc[0] += [items({"k": h})[0]]\nx = c', 'c = [0]\nc[0] = tp\nx = c', 'd = {"k": 0}\nd["k"] = tp\nx = d'])]
         for _ in range(r.randrange(1, 5)):
             R = r.choice(roots)
             lines.append(r.choice(['push(%s, 9)' % R, 'push(%s[0], 9)' % R, '%s[0] = 7' % R, 'del %s[0]' % R, '%s["a"] = 7' % R, 'pop(%s)' % R,
@@ -292,6 +301,13 @@ def nonmutator_calls(seed, n):
                  'nn': [[3, 1], [2]], 'm': {'k': [2, 1]},
                  'ik': r.choice([{1: 'x', 2: [2, 1]}, {2: 'b', 1: 'a', 'k': 3}, {-1: [1], 0: 'z'}, {7: {1: 2}, 'rows': {3: 'c', 2: 'b'}}])}
         names.update(exotic_host_objects(r))
+        if r.random() < 0.04:
+            names['big'] = [0] * 10001
+            names['m2'] = {'rows': names['big']}
+            lines_big = r.choice(['max(big, b) | len', 'get(m2, "rows") | len', 'get(m2, "zz", big) | len', 'reduce([big], (p, q) => q, 0) | len', 'rand([big]) | len',
+                                  'min([big]) | len', '(v => v)(big) | len', 'len(big)', 'sum([], big) | len' if False else 'str(len(m2["rows"]))'])
+        else:
+            lines_big = None
         names['rows'] = [[1, 'a'], [2, 'c'], [1, 'b'], [2, 'd'], [1, 'e']]
         names['rd'] = {'p': 1, 'q': 2, 'r': 1, 's': 2}
         args = ['a', 'b', 'd', 's', 'n', 'nn', 'm', 'ik', 'ik', 'm["k"]', 'nn[0]', 'dd', 'od', 'st', 'dq', 'ho', 'reg', 'None', 'True', 'v => 0 - v', 'v => v', '(p, q) => q', 'v => len(v)', '"a"', '" "', '0', '1',
@@ -312,7 +328,9 @@ def nonmutator_calls(seed, n):
                 return '(%s | %s(%s))' % (xs[0], f, ', '.join(xs[1:])) if len(xs) > 1 else '(%s | %s)' % (xs[0], f)
             return '%s(%s)' % (f, ', '.join(xs))
         lines = [call(2) for _ in range(r.randrange(1, 4))]
-        if r.random() < 0.3:
+        if lines_big:
+            lines = [lines_big, 'len(big)']
+        if r.random() < 0.3 and not lines_big:
             # the read-only accessors on host objects of unmodelled types, with present and absent keys
             if r.random() < 0.4:
                 # sorting with keys that tie, with and without the reverse flag (rows and dict entries can be told apart)
@@ -352,8 +370,16 @@ def builtin_matrix(seed, n=None):
         for _ in range(60):
             triples.append('%s(%s, %s, %s)' % (f, r.choice(names), r.choice(names + lams + ['"+="']), r.choice(names + lams)))
     progs += triples
+    # more arguments than any entry takes (4 and 5), incl. flag-like strings, key functions and None: the table entry must refuse them
+    for f in fns:
+        for _ in range(25):
+            k = r.choice([4, 5])
+            progs.append('%s(%s)' % (f, ', '.join(r.choice(names + lams + ['"i"', '"+="', '-1', '"x"']) for _ in range(k))))
+        progs.append('acc = []\n%s(sa, "b", m => (push(acc, m) or "0"), -1, "i")\nacc' % f)
     if n is not None and n < len(progs):
-        progs = r.sample(progs, n)
+        must = [p for p in progs if p.startswith('acc = []') or p.count(',') >= 3]       # the over-long calls are always kept
+        rest = [p for p in progs if not (p.startswith('acc = []') or p.count(',') >= 3)]
+        progs = must + r.sample(rest, max(0, min(len(rest), n - len(must))))
     import copy
     return [{'names': [copy.deepcopy(pool)], 'host': {}, 'calls': [{'src': p, 'n': 0, 'max': 200}]} for p in progs]
 
@@ -366,6 +392,7 @@ C14_VALS = ['7', '"z"']
 C14_RAW = ['push(L, [])', 'push(L, {})', 'D["e"] = []', 'insert(L, 0, [])', 'L[0] = {}', 'push(L[0], 5)', 'L[0]["n"] = 1', 'D["e"] += [1]',
            'get(D, "zz", [])', 'push(get(D, "zz", []), 1)', '[1, 2] | map(v => push(L, []))', 'L | map(v => len(v) if v == [] else 0)',
            'remove(L, 1.5)', 'remove(L, 2.5)', 'push(L, 1.5)', 'index_of(L, 1.5)', 'remove(L, 1.0)', 'remove(L, True)', 'remove(D, 1)', '1.5 in L',
+           'D["e"] = [1]', 'L[0] = items(D)[0]', 'push(D["e"], 9)', 'L[0]', 'D["t"] = enumerate(L)[0]', 'D["t"]', 'L[1] = items(D)[0]\npush(D["e"], 4)\nL[1]',
            'remove(L, 2.0)', 'insert(L, 1, 2.5)', 'remove(L, "1")', 'push(L[len(L) - 1], 7)', 'len(L[0])', 'L[0] == []', 'D | map((k, v) => v)', 'remove(L, [])', 'index_of(L, [])', '[] in L', '{} in L']
 
 
@@ -535,7 +562,7 @@ def shadowed_cast_programs(seed, n):
     out = []
     for _ in range(n):
         names = {'p': r.choice(pool), 'q': r.choice(pool), 'u': r.choice([2, 3, 40, 61, Decimal(3)])}
-        host = {}
+        host = {'hcall2': {'h': 'call', 'mode': 'propagate'}}
         lines = []
         sh = r.sample(casts, r.randrange(1, 3))
         for c in sh:
@@ -547,6 +574,10 @@ def shadowed_cast_programs(seed, n):
             # else: not shadowed after all (control)
         def cast(x):
             return '%s(%s)' % (r.choice(sh if r.random() < 0.8 else casts), x)
+        if r.random() < 0.35:
+            op = r.choice(['*', '**', '*', '+'])
+            lines.append(r.choice(['reduce([p, q, p, q, p, q], (a, b) => a %s b)' % op, 'm = (a, b) => a %s b\nm(p, q)' % op, 'm = (a, b) => b %s a\nm(m(p, q), q)' % op,
+                                   '{"k": p} | map((k, v) => v %s v)' % op, '[[p, q]] | map(v => v[0] %s v[1])' % op, 'hcall2((a, b) => a %s b, p, u)' % op]))
         for _ in range(r.randrange(1, 3)):
             a, b = r.choice(['p', 'q', 'u', '3']), r.choice(['p', 'q', 'u', '3', '61'])
             lines.append(r.choice(['%s * %s' % (cast(a), cast(b)), '%s ** %s' % (cast(a), cast(b)), '%s * %s * %s' % (cast(a), cast(b), cast(a)),
